@@ -114,7 +114,7 @@ def run(ctx):
             once_more(vlib.model_check, ctx, 'OciUnifyMC.tla', cfg, workers=MCW, timeout=900, what=what)
     td = ctx.sub('traces')
     traces = []
-    nfiles, per = (4, 8) if quick else (16, 30)
+    nfiles, per = (4, 6) if quick else (16, 30)
     for i in range(nfiles):
         t = os.path.join(td, 'unify%d.ndjson' % i)
         run_unify(ctx, vh, t, n=per, seed=ctx.seed * 1000 + i)
